@@ -194,7 +194,10 @@ G_LTop == pc[LOOP] = "l_top" /\ lock = "none"
 LTop ==        \* with _jobs_lock: partition; then cancel overdue jobs
   /\ G_LTop
   /\ LET live == SelectSeq(jobs, LAMBDA j : jst[j] = "pending")
-         pend == SelectSeq(live, LAMBDA j : ~IsOverdue(j))
+         \* seeded model bug two_clock_reads (change C09-r5m1): the pending test reads the clock again, and the clock has
+         \* moved by a tick: a deadline between the two readings is neither overdue nor pending
+         pend == IF Bug = "two_clock_reads" THEN SelectSeq(live, LAMBDA j : dl[j] >= now + 1)
+                 ELSE SelectSeq(live, LAMBDA j : ~IsOverdue(j))
          ov   == SelectSeq(live, LAMBDA j : IsOverdue(j))
      IN IF Bug = "partition_unlocked"
           \* seeded model bug (change C09-r4m1): the list is only COPIED under the lock, partitioned outside it, and the
